@@ -7,42 +7,543 @@ import ZCV.Spec.Datatypes
 namespace ZCV.DT
 open ZCV ZCV.Rx
 
-theorem basicKey_eq_spec (s : Str) : basicKey s = DTSpec.basicKey s := by
-  sorry
+/-! ## tables and bounds -/
 
-theorem identifier_eq_spec (s : Str) : identifier s = DTSpec.identifier s := by
-  sorry
-
-theorem dottedName_eq_spec (s : Str) : dottedName s = DTSpec.dottedName s := by
-  sorry
-
-theorem dottedSuffix_eq_spec (s : Str) : dottedSuffix s = DTSpec.dottedSuffix s := by
-  sorry
+theorem boolTrue_val : Gen.boolTrue = ["yes".toList, "true".toList, "on".toList] := rfl
+theorem boolFalse_val : Gen.boolFalse = ["no".toList, "false".toList, "off".toList] := rfl
 
 theorem asBoolean_eq_spec (s : Str) : asBoolean s = DTSpec.boolean s := by
-  sorry
+  unfold asBoolean DTSpec.boolean
+  rw [boolTrue_val, boolFalse_val]
+  simp only [List.contains_cons, List.contains_nil, Bool.or_false, Bool.or_assoc]
+
+theorem portMin_val : Gen.portMin = some 0 := rfl
+theorem portMax_val : Gen.portMax = some 65535 := rfl
 
 theorem portNumber_eq_spec (s : Str) : portNumber s = DTSpec.portNumber s := by
-  sorry
+  unfold portNumber DTSpec.portNumber rangeChecked integer
+  rw [portMin_val, portMax_val]
+  cases pyInt s with
+  | none => rfl
+  | some n =>
+    simp only [bind, Except.bind, pure, Except.pure, throw, throwThe, MonadExceptOf.throw]
+    by_cases h1 : n < 0
+    · simp [h1]; intro; omega
+    · by_cases h2 : n > 65535
+      · simp [h1, h2]
+      · simp [h1, h2]
+
+theorem integer_eq (v : Str) : integer v = DTSpec.integer v := rfl
+
+theorem map_mul_one (r : R Int) : r.map (· * 1) = r := by
+  cases r <;> simp [Except.map]
+theorem map_id' (r : R Int) : r.map (fun x => x) = r := by
+  cases r <;> simp [Except.map]
+
+theorem byteSizeTbl_val : Gen.byteSizeTbl = [("kb".toList, 1024), ("mb".toList, 1024*1024), ("gb".toList, 1024*1024*1024)] := rfl
+theorem timeIntervalTbl_val : Gen.timeIntervalTbl = [("s".toList, 1), ("m".toList, 60), ("h".toList, 3600), ("d".toList, 86400)] := rfl
 
 theorem byteSize_eq_spec (s : Str) : byteSize s = DTSpec.byteSize s := by
-  sorry
+  unfold byteSize DTSpec.byteSize suffixMult DTSpec.suffixed
+  rw [byteSizeTbl_val]
+  show (match suffixLoop (lower s) 2 _ with | some r => r | none => (integer (lower s)).map (· * 1)) = _
+  simp only [suffixLoop, List.find?_cons, List.find?_nil, map_mul_one, integer_eq]
+  generalize lastN (lower s) 2 = x
+  by_cases h1 : x = ['k', 'b']
+  · simp [h1]
+  by_cases h2 : x = ['m', 'b']
+  · simp [h2]
+  by_cases h3 : x = ['g', 'b']
+  · simp [h3]
+  have e1 : (x == ['k', 'b']) = false := by simpa using h1
+  have e2 : (x == ['m', 'b']) = false := by simpa using h2
+  have e3 : (x == ['g', 'b']) = false := by simpa using h3
+  simp [e1, e2, e3]
 
 theorem timeInterval_eq_spec (s : Str) : timeInterval s = DTSpec.timeInterval s := by
-  sorry
+  unfold timeInterval DTSpec.timeInterval suffixMult DTSpec.suffixed
+  rw [timeIntervalTbl_val]
+  show (match suffixLoop (lower s) 1 _ with | some r => r | none => (integer (lower s)).map (· * 1)) = _
+  simp only [suffixLoop, List.find?_cons, List.find?_nil, map_mul_one, integer_eq]
+  generalize lastN (lower s) 1 = x
+  by_cases h1 : x = ['s']
+  · simp [h1, map_id']
+  by_cases h2 : x = ['m']
+  · simp [h2]
+  by_cases h3 : x = ['h']
+  · simp [h3]
+  by_cases h4 : x = ['d']
+  · simp [h4]
+  have e1 : (x == ['s']) = false := by simpa using h1
+  have e2 : (x == ['m']) = false := by simpa using h2
+  have e3 : (x == ['h']) = false := by simpa using h3
+  have e4 : (x == ['d']) = false := by simpa using h4
+  simp [e1, e2, e3, e4]
 
-theorem inetAddress_eq_spec (d s : Str) : inetAddress d s = DTSpec.inetAddress d s := by
-  sorry
+/-! ## `[k1][k2]*` patterns -/
 
-theorem socketAddress_eq_spec (d s : Str) :
-    (socketAddress d s).map (fun p => (String.ofList (ZCV.DT.familyStr p.1), p.2)) = DTSpec.socketFamily d s := by
-  sorry
+theorem dropWhile_nil_all (p : Char → Bool) (t : Str) : (t.dropWhile p == []) = t.all p := by
+  induction t with
+  | nil => simp
+  | cons c t ih =>
+    simp only [List.dropWhile_cons, List.all_cons]
+    by_cases hc : p c <;> simp [hc, ih]
+
+theorem matchesWhole_cls_star (k1 k2 : Cls) (s : Str) :
+    matchesWhole (.seq (.cls k1) (.star (.cls k2))) s =
+      match s with
+      | c :: t => k1.test c && t.all k2.test
+      | [] => false := by
+  unfold matchesWhole pyMatch
+  rw [cls_star_head _ k1 k2 [] _ s (Nat.le_refl _)]
+  cases s with
+  | nil => rfl
+  | cons c t =>
+    by_cases hc : k1.test c
+    · simp only [hc, ↓reduceIte, Bool.true_and]; exact dropWhile_nil_all _ _
+    · simp [hc]
+
+def identK1 : Cls := ⟨false, [.range 95 95, .range 97 122, .range 65 90]⟩
+def identK2 : Cls := ⟨false, [.range 95 95, .range 97 122, .range 65 90, .range 48 57]⟩
+def keyK1 : Cls := ⟨false, [.range 97 122, .range 65 90]⟩
+def keyK2 : Cls := ⟨false, [.range 45 45, .range 46 46, .range 95 95, .range 97 122, .range 65 90, .range 48 57]⟩
+
+theorem identifierRx_shape : Gen.identifierRx = .seq (.cls identK1) (.star (.cls identK2)) := rfl
+theorem basicKeyRx_shape : Gen.basicKeyRx = .seq (.cls keyK1) (.star (.cls keyK2)) := rfl
+
+theorem identK1_test (c : Char) : identK1.test c = DTSpec.isIdentStart c := by
+  unfold identK1 DTSpec.isIdentStart; cls_arith
+theorem identK2_test (c : Char) : identK2.test c = DTSpec.isIdentChar c := by
+  unfold identK2 DTSpec.isIdentChar; cls_arith
+theorem keyK1_test (c : Char) : keyK1.test c = isAsciiLetter c := by
+  unfold keyK1; cls_arith
+theorem keyK2_test (c : Char) : keyK2.test c = DTSpec.isKeyChar c := by
+  unfold keyK2 DTSpec.isKeyChar; cls_arith
+
+theorem identifier_matches (s : Str) : matchesWhole Gen.identifierRx s = DTSpec.isIdent s := by
+  rw [identifierRx_shape, matchesWhole_cls_star]
+  cases s with
+  | nil => rfl
+  | cons c t =>
+    simp only [DTSpec.isIdent, identK1_test]
+    rw [show identK2.test = DTSpec.isIdentChar from funext identK2_test]
+
+theorem basicKey_matches (s : Str) : matchesWhole Gen.basicKeyRx s = DTSpec.isBasicKey s := by
+  rw [basicKeyRx_shape, matchesWhole_cls_star]
+  cases s with
+  | nil => rfl
+  | cons c t =>
+    simp only [DTSpec.isBasicKey, keyK1_test]
+    rw [show keyK2.test = DTSpec.isKeyChar from funext keyK2_test]
+
+theorem identifier_eq_spec (s : Str) : identifier s = DTSpec.identifier s := by
+  unfold identifier DTSpec.identifier regexConv
+  rw [identifier_matches]
+
+theorem isKeyChar_ascii (c : Char) (h : DTSpec.isKeyChar c = true) : c.toNat < 128 := by
+  revert h
+  simp only [DTSpec.isKeyChar, isAsciiLetter, isAsciiDigit, inRange, ceq, Char.reduceToNat]
+  generalize c.toNat = n
+  simp
+  omega
+
+theorem lower_ascii (s : Str) (h : ∀ c ∈ s, c.toNat < 128) : lower s = asciiLower s := by
+  unfold lower asciiLower
+  apply List.map_congr_left
+  intro c hc
+  simp [lowerChar, h c hc]
+
+theorem isAsciiLetter_keyChar (c : Char) (h : isAsciiLetter c = true) : DTSpec.isKeyChar c = true := by
+  simp [DTSpec.isKeyChar, h]
+
+theorem basicKey_chars (s : Str) (h : DTSpec.isBasicKey s = true) : ∀ c ∈ s, DTSpec.isKeyChar c = true := by
+  cases s with
+  | nil => simp
+  | cons c t =>
+    simp only [DTSpec.isBasicKey, Bool.and_eq_true, List.all_eq_true] at h
+    intro d hd
+    simp only [List.mem_cons] at hd
+    rcases hd with rfl | hd
+    · exact isAsciiLetter_keyChar _ h.1
+    · exact h.2 d hd
+
+theorem basicKey_eq_spec (s : Str) : basicKey s = DTSpec.basicKey s := by
+  unfold basicKey DTSpec.basicKey regexConv
+  rw [basicKey_matches]
+  by_cases h : DTSpec.isBasicKey s
+  · simp only [h, ↓reduceIte, Except.map]
+    rw [lower_ascii s (fun c hc => isKeyChar_ascii c (basicKey_chars s h c hc))]
+  · simp [h, Except.map]
+
+/-! ## idempotence -/
+
+theorem toNat_ofNat_small (n : Nat) (h : n < 55296) : (Char.ofNat n).toNat = n := by
+  have hv : n.isValidChar := Or.inl h
+  unfold Char.ofNat
+  rw [dif_pos hv]
+  simp [Char.ofNatAux, Char.toNat]
+
+theorem char_le_toNat (a b : Char) : a ≤ b ↔ a.toNat ≤ b.toNat := by
+  rw [Char.le_def, UInt32.le_iff_toNat_le]; rfl
+
+theorem asciiLowerChar_toNat (c : Char) :
+    (asciiLowerChar c).toNat = if 65 ≤ c.toNat ∧ c.toNat ≤ 90 then c.toNat + 32 else c.toNat := by
+  unfold asciiLowerChar
+  simp only [char_le_toNat, Char.reduceToNat]
+  split
+  · rw [toNat_ofNat_small]; omega
+  · rfl
+
+theorem char_ext (a b : Char) (h : a.toNat = b.toNat) : a = b := by
+  rw [← Char.ofNat_toNat a, ← Char.ofNat_toNat b, h]
+
+theorem asciiLowerChar_idem (c : Char) : asciiLowerChar (asciiLowerChar c) = asciiLowerChar c := by
+  apply char_ext
+  rw [asciiLowerChar_toNat, asciiLowerChar_toNat]
+  repeat' split
+  all_goals omega
+
+theorem isAsciiLetter_lower (c : Char) : isAsciiLetter (asciiLowerChar c) = isAsciiLetter c := by
+  simp only [isAsciiLetter, inRange, asciiLowerChar_toNat, Char.reduceToNat]
+  rw [Bool.eq_iff_iff]
+  split <;> simp <;> omega
+
+theorem isKeyChar_lower (c : Char) : DTSpec.isKeyChar (asciiLowerChar c) = DTSpec.isKeyChar c := by
+  simp only [DTSpec.isKeyChar, isAsciiLetter, isAsciiDigit, inRange, ceq, asciiLowerChar_toNat, Char.reduceToNat]
+  rw [Bool.eq_iff_iff]
+  split <;> simp <;> omega
+
+theorem isBasicKey_lower (s : Str) : DTSpec.isBasicKey (asciiLower s) = DTSpec.isBasicKey s := by
+  cases s with
+  | nil => rfl
+  | cons c t =>
+    simp only [asciiLower, List.map_cons, DTSpec.isBasicKey, isAsciiLetter_lower, List.all_map]
+    congr 2
+    funext d
+    simp [isKeyChar_lower]
+
+theorem asciiLower_idem (s : Str) : asciiLower (asciiLower s) = asciiLower s := by
+  simp [asciiLower, asciiLowerChar_idem]
 
 /-- converters used to normalise keys are idempotent -/
 theorem basicKey_idempotent (s r : Str) (h : basicKey s = .ok r) : basicKey r = .ok r := by
-  sorry
+  rw [basicKey_eq_spec] at h
+  rw [basicKey_eq_spec]
+  unfold DTSpec.basicKey at h ⊢
+  split at h
+  · rename_i hk
+    injection h with h; subst h
+    rw [isBasicKey_lower, if_pos hk, asciiLower_idem]
+  · cases h
 
 theorem identifier_idempotent (s r : Str) (h : identifier s = .ok r) : identifier r = .ok r := by
-  sorry
+  unfold identifier regexConv at h ⊢
+  split at h
+  · rename_i hm; injection h with h; subst h; rw [if_pos hm]
+  · cases h
+
+/-! ## addresses -/
+
+theorem spec_portNumber_err (p : Str) (e : ConvErr) (h : DTSpec.portNumber p = .error e) : e = .valueError := by
+  unfold DTSpec.portNumber at h
+  split at h
+  · split at h
+    · cases h
+    · injection h with h; exact h.symm
+  · injection h with h; exact h.symm
+
+theorem inetAddress_eq_spec (d s : Str) : inetAddress d s = DTSpec.inetAddress d s := by
+  unfold inetAddress DTSpec.inetAddress
+  simp only [portNumber_eq_spec]
+  by_cases hc : s.contains ':'
+  · simp only [hc, ↓reduceIte]
+    generalize rsplit1 s ':' = hp
+    obtain ⟨h, p⟩ := hp
+    simp only
+    by_cases hb : (startsWith h ['['] && endsWith h [']']) = true
+    · simp only [hb, ↓reduceIte]
+      by_cases hp : p = []
+      · subst hp; simp [bind, Except.bind, pure, Except.pure]
+      · have : (p != []) = true := by simpa using hp
+        have h2 : (p == []) = false := by simpa using hp
+        simp only [this, h2, ↓reduceIte]
+        cases DTSpec.portNumber p <;> simp [bind, Except.bind, pure, Except.pure, Except.map]
+    · simp only [hb]
+      by_cases hh : h.contains ':'
+      · have hh' : ':' ∈ h := by simpa using hh
+        simp [hh', bind, Except.bind, pure, Except.pure]
+      · simp only [hh]
+        by_cases hp : p = []
+        · subst hp; simp [bind, Except.bind, pure, Except.pure]
+        · have h2 : (p == []) = false := by simpa using hp
+          simp only [h2]
+          cases hpn : DTSpec.portNumber p <;> simp [hp, hpn, bind, Except.bind, pure, Except.pure, Except.map]
+  · simp only [hc]
+    cases hpn : DTSpec.portNumber s with
+    | ok n => simp [bind, Except.bind, pure, Except.pure]
+    | error e =>
+      have := spec_portNumber_err s e hpn
+      subst this
+      by_cases hl : (splitWS s).length = 1
+      · simp [hl, bind, Except.bind, pure, Except.pure]
+      · simp [hl, bind, Except.bind, throw, throwThe, MonadExceptOf.throw]
+
+theorem familyStr_unix : String.ofList (familyStr .unix) = "AF_UNIX" := by decide
+theorem familyStr_inet : String.ofList (familyStr .inet) = "AF_INET" := by decide
+theorem familyStr_inet6 : String.ofList (familyStr .inet6) = "AF_INET6" := by decide
+
+theorem socketAddress_eq_spec (d s : Str) :
+    (socketAddress d s).map (fun p => (String.ofList (ZCV.DT.familyStr p.1), p.2)) = DTSpec.socketFamily d s := by
+  unfold socketAddress DTSpec.socketFamily
+  rw [inetAddress_eq_spec]
+  by_cases hc : s.contains '/'
+  · simp only [hc, ↓reduceIte, Except.map, familyStr_unix]
+  · simp only [hc]
+    cases DTSpec.inetAddress d s with
+    | error e => rfl
+    | ok a =>
+      simp only [bind, Except.bind, pure, Except.pure, Except.map]
+      simp
+      split
+      · exact familyStr_inet6
+      · exact familyStr_inet
+
+/-! ## dotted names -/
+
+def dotK : Cls := ⟨false, [.range 46 46]⟩
+theorem dotK_test (c : Char) : dotK.test c = (c == '.') := by
+  unfold dotK; cls_arith
+
+/-- `\.[_a-zA-Z][_a-zA-Z0-9]*` -/
+def dotPart : RE := .seq (.cls dotK) (.seq (.cls identK1) (.star (.cls identK2)))
+
+theorem dottedNameRx_shape :
+    Gen.dottedNameRx = .seq (.cls identK1) (.seq (.star (.cls identK2)) (.star dotPart)) := rfl
+theorem dottedSuffixRx_shape :
+    Gen.dottedSuffixRx = .alt (.seq (.cls identK1) (.seq (.star (.cls identK2)) (.star dotPart)))
+      (.seq dotPart (.star dotPart)) := rfl
+
+/-- the dotted-name acceptor as a two-state scanner: `true` = an identifier must start here,
+    `false` = inside an identifier -/
+def scan : Bool → Str → Bool
+  | true, [] => false
+  | true, c :: t => DTSpec.isIdentStart c && scan false t
+  | false, [] => true
+  | false, c :: t =>
+    if DTSpec.isIdentChar c then scan false t else if c == '.' then scan true t else false
+
+/-- what must hold of the text left after an identifier -/
+def acc : Str → Bool
+  | [] => true
+  | c :: t => if c == '.' then scan true t else false
+
+theorem identChar_not_dot (c : Char) (h : DTSpec.isIdentChar c = true) : (c == '.') = false := by
+  revert h
+  simp only [DTSpec.isIdentChar, isAsciiLetter, isAsciiDigit, inRange, ceq, Char.reduceToNat]
+  generalize c.toNat = n
+  simp
+  omega
+
+theorem identStart_identChar (c : Char) (h : DTSpec.isIdentStart c = true) : DTSpec.isIdentChar c = true := by
+  revert h
+  simp only [DTSpec.isIdentStart, DTSpec.isIdentChar, isAsciiLetter, isAsciiDigit, inRange, ceq, Char.reduceToNat]
+  generalize c.toNat = n
+  simp
+  omega
+
+theorem scan_false_acc (t : Str) : scan false t = acc (t.dropWhile identK2.test) := by
+  induction t with
+  | nil => rfl
+  | cons c t ih =>
+    simp only [scan, List.dropWhile_cons, identK2_test]
+    by_cases hc : DTSpec.isIdentChar c
+    · simp only [hc, ↓reduceIte, ih]
+    · simp only [hc, acc]; rfl
+
+/-- the contract, computed by the scanner -/
+theorem splitDots_scan (t : Str) :
+    ∃ w ws, DTSpec.splitDots t = w :: ws ∧
+      scan true t = (DTSpec.isIdent w && ws.all DTSpec.isIdent) ∧
+      scan false t = (w.all DTSpec.isIdentChar && ws.all DTSpec.isIdent) := by
+  induction t with
+  | nil => exact ⟨[], [], rfl, rfl, rfl⟩
+  | cons c t ih =>
+    obtain ⟨w, ws, h0, hA, hB⟩ := ih
+    by_cases hd : c = '.'
+    · subst hd
+      refine ⟨[], w :: ws, by simp [DTSpec.splitDots, h0], ?_, ?_⟩
+      · simp [scan, DTSpec.isIdent, DTSpec.isIdentStart, isAsciiLetter, inRange]
+      · have : DTSpec.isIdentChar '.' = false := by decide
+        simp [scan, this, hA]
+    · have hd' : (c == '.') = false := by simpa using hd
+      refine ⟨c :: w, ws, by simp [DTSpec.splitDots, h0, hd], ?_, ?_⟩
+      · simp [scan, DTSpec.isIdent, hB, Bool.and_assoc]
+      · simp only [scan, hd', List.all_cons, hB]
+        by_cases hc : DTSpec.isIdentChar c <;> simp [hc]
+
+theorem isDottedName_scan (s : Str) : DTSpec.isDottedName s = scan true s := by
+  obtain ⟨w, ws, h0, hA, _⟩ := splitDots_scan s
+  simp [DTSpec.isDottedName, h0, hA]
+
+theorem head_filter {α} {l : List α} {p : α → Bool} {x : α} (h : l.head? = some x) (hp : p x = true) :
+    (l.filter p).head? = some x := by
+  cases l with
+  | nil => simp at h
+  | cons a as => simp at h; subst h; simp [hp]
+
+theorem dotPart_head (w f : Nat) (cs : Caps) (c : Char) (t : Str) (hc : DTSpec.isIdentStart c = true)
+    (hf : (c :: t).length ≤ f) :
+    (m w dotPart f ('.' :: c :: t, cs)).head? = some (t.dropWhile identK2.test, cs) := by
+  unfold dotPart
+  rw [m]
+  refine head_flatMap (x := (c :: t, cs)) (by simp [m, dotK_test]) ?_
+  rw [cls_star_head w identK1 identK2 cs f (c :: t) hf]
+  simp [identK1_test, hc]
+
+theorem dotPart_nil_of_not_dot (w f : Nat) (cs : Caps) (c : Char) (t : Str) (hc : (c == '.') = false) :
+    m w dotPart f (c :: t, cs) = [] := by
+  simp [dotPart, m, dotK_test, hc]
+
+theorem dotPart_nil_of_not_start (w f : Nat) (cs : Caps) (c : Char) (t : Str) (hc : DTSpec.isIdentStart c = false) :
+    m w dotPart f ('.' :: c :: t, cs) = [] := by
+  simp [dotPart, m, dotK_test, identK1_test, hc]
+
+theorem dotPart_nil_dot (w f : Nat) (cs : Caps) : m w dotPart f (['.'], cs) = [] := by
+  simp [dotPart, m, dotK_test]
+
+theorem dotPart_nil_nil (w f : Nat) (cs : Caps) : m w dotPart f ([], cs) = [] := by
+  simp [dotPart, m]
+
+/-- first match of `(\.ident)*`: whatever is left, it is empty exactly when the scanner accepts -/
+theorem star_dotPart_head (w : Nat) (cs : Caps) : ∀ (f : Nat) (u : Str), u.length ≤ f →
+    ∃ r, (m w (.star dotPart) f (u, cs)).head? = some (r, cs) ∧ (r == []) = acc u := by
+  intro f
+  induction f with
+  | zero =>
+    intro u h
+    cases u with
+    | nil => exact ⟨[], by simp [m], rfl⟩
+    | cons c t => simp at h
+  | succ f ih =>
+    intro u h
+    rw [m]
+    cases u with
+    | nil => exact ⟨[], by simp [dotPart_nil_nil], rfl⟩
+    | cons x t =>
+      by_cases hx : (x == '.') = true
+      · have hx' : x = '.' := by simpa using hx
+        subst hx'
+        cases t with
+        | nil => exact ⟨['.'], by simp [dotPart_nil_dot], by simp [acc, scan]⟩
+        | cons c t =>
+          by_cases hc : DTSpec.isIdentStart c = true
+          · obtain ⟨r, h1, h2⟩ := ih (t.dropWhile identK2.test) (by
+              have := length_dropWhile_le identK2.test t
+              simp at h; omega)
+            refine ⟨r, ?_, ?_⟩
+            · apply head_append
+              refine head_flatMap (x := (t.dropWhile identK2.test, cs)) ?_ h1
+              apply head_filter (dotPart_head w (f+1) cs c t hc (by simp at h ⊢; omega))
+              have := length_dropWhile_le identK2.test t
+              simp; omega
+            · rw [h2, ← scan_false_acc]; simp [acc, scan, hc]
+          · have hc' : DTSpec.isIdentStart c = false := by simpa using hc
+            exact ⟨'.' :: c :: t, by simp [dotPart_nil_of_not_start _ _ _ _ _ hc'], by simp [acc, scan, hc']⟩
+      · have hx' : (x == '.') = false := by simpa using hx
+        exact ⟨x :: t, by simp [dotPart_nil_of_not_dot _ _ _ _ _ hx'], by simp [acc, hx']⟩
+
+/-- `[k1][k2]*(\.[k1][k2]*)*` -/
+def dottedBody : RE := .seq (.cls identK1) (.seq (.star (.cls identK2)) (.star dotPart))
+
+theorem dottedBody_ok (w : Nat) (cs : Caps) (f : Nat) (c : Char) (t : Str)
+    (hc : DTSpec.isIdentStart c = true) (hf : (c :: t).length ≤ f) :
+    ∃ r, (m w dottedBody f (c :: t, cs)).head? = some (r, cs) ∧ (r == []) = scan false t := by
+  have hlen := length_dropWhile_le identK2.test t
+  obtain ⟨r, h1, h2⟩ := star_dotPart_head w cs f (t.dropWhile identK2.test) (by simp at hf; omega)
+  refine ⟨r, ?_, by rw [h2, scan_false_acc]⟩
+  unfold dottedBody
+  rw [m]
+  refine head_flatMap (x := (t, cs)) (by simp [m, identK1_test, hc]) ?_
+  rw [m]
+  exact head_flatMap (star_cls_head w identK2 cs f t (by simp at hf; omega)) h1
+
+theorem dottedBody_bad (w : Nat) (cs : Caps) (f : Nat) (c : Char) (t : Str)
+    (hc : DTSpec.isIdentStart c = false) : m w dottedBody f (c :: t, cs) = [] := by
+  simp [dottedBody, hc, m, identK1_test]
+
+theorem dottedBody_nil (w : Nat) (cs : Caps) (f : Nat) : m w dottedBody f ([], cs) = [] := by
+  simp [dottedBody, m]
+
+theorem dottedName_matches (s : Str) : matchesWhole Gen.dottedNameRx s = DTSpec.isDottedName s := by
+  rw [isDottedName_scan, dottedNameRx_shape]
+  unfold matchesWhole pyMatch
+  change (match (m s.length dottedBody s.length (s, [])).head? with | some st => st.1 == [] | none => false) = _
+  cases s with
+  | nil => rw [dottedBody_nil]; rfl
+  | cons c t =>
+    by_cases hc : DTSpec.isIdentStart c = true
+    · obtain ⟨r, h1, h2⟩ := dottedBody_ok (c :: t).length [] (c :: t).length c t hc (Nat.le_refl _)
+      rw [h1]; simp only [scan, hc, Bool.true_and, ← h2]
+    · have hc' : DTSpec.isIdentStart c = false := by simpa using hc
+      rw [dottedBody_bad _ _ _ _ _ hc']; simp [scan, hc']
+
+theorem dottedName_eq_spec (s : Str) : dottedName s = DTSpec.dottedName s := by
+  unfold dottedName DTSpec.dottedName regexConv
+  rw [dottedName_matches]
+
+theorem isDottedSuffix_scan (s : Str) :
+    DTSpec.isDottedSuffix s = (scan true s || (match s with | '.' :: t => scan true t | _ => false)) := by
+  unfold DTSpec.isDottedSuffix
+  rw [isDottedName_scan]
+  congr 1
+  split <;> simp [isDottedName_scan]
+
+theorem dottedSuffix_matches (s : Str) : matchesWhole Gen.dottedSuffixRx s = DTSpec.isDottedSuffix s := by
+  rw [isDottedSuffix_scan, dottedSuffixRx_shape]
+  unfold matchesWhole pyMatch
+  change (match (m s.length (.alt dottedBody (.seq dotPart (.star dotPart))) s.length (s, [])).head? with
+    | some st => st.1 == [] | none => false) = _
+  rw [m]
+  cases s with
+  | nil => rw [dottedBody_nil, m, dotPart_nil_nil]; rfl
+  | cons c t =>
+    by_cases hc : DTSpec.isIdentStart c = true
+    · obtain ⟨r, h1, h2⟩ := dottedBody_ok (c :: t).length [] (c :: t).length c t hc (Nat.le_refl _)
+      rw [head_append h1]
+      have hd : c ≠ '.' := by
+        intro h; subst h; revert hc; decide
+      simp only [scan, hc, Bool.true_and, ← h2]
+      split
+      · rename_i heq; injection heq with h _; exact absurd h hd
+      · simp
+    · have hc' : DTSpec.isIdentStart c = false := by simpa using hc
+      rw [dottedBody_bad _ _ _ _ _ hc', List.nil_append, m]
+      simp only [scan, hc', Bool.false_and, Bool.false_or]
+      by_cases hx : (c == '.') = true
+      · have hx' : c = '.' := by simpa using hx
+        subst hx'
+        simp only
+        cases t with
+        | nil => rw [dotPart_nil_dot]; rfl
+        | cons c' t' =>
+          by_cases hc2 : DTSpec.isIdentStart c' = true
+          · have hlen := length_dropWhile_le identK2.test t'
+            obtain ⟨r, h1, h2⟩ := star_dotPart_head ('.' :: c' :: t').length [] ('.' :: c' :: t').length
+              (t'.dropWhile identK2.test) (by simp; omega)
+            rw [head_flatMap (dotPart_head _ _ [] c' t' hc2 (by simp)) h1]
+            simp only [scan, hc2, Bool.true_and, h2, scan_false_acc]
+          · have hc2' : DTSpec.isIdentStart c' = false := by simpa using hc2
+            rw [dotPart_nil_of_not_start _ _ _ _ _ hc2']
+            simp [scan, hc2']
+      · have hx' : (c == '.') = false := by simpa using hx
+        rw [dotPart_nil_of_not_dot _ _ _ _ _ hx']
+        simp only [List.flatMap_nil, List.head?_nil]
+        split
+        · rename_i heq; injection heq with h _; subst h; simp at hx'
+        · rfl
+
+theorem dottedSuffix_eq_spec (s : Str) : dottedSuffix s = DTSpec.dottedSuffix s := by
+  unfold dottedSuffix DTSpec.dottedSuffix regexConv
+  rw [dottedSuffix_matches]
 
 end ZCV.DT
